@@ -19,12 +19,159 @@ EXPLANATION = (
     'get_weekday\'s month constants are congruent to them mod 7 (with the March-based year shift), '
     'days_per_month are their successive differences. '
     'C17-wday: the weekday<->tm_wday switches are exhaustive, Sunday=0..Saturday=6, mutually '
-    'inverse. Does not decide the congruence arithmetic of get_weekday itself.')
+    'inverse. C17-leap: get_weekday\'s three leap-day corrections enter as + y/4 - y/100 + y/400 of one and the same '
+    'value y, the year counted from March (year - (month < 3)). Does not decide the rest of the congruence arithmetic of '
+    'get_weekday.')
 LEVEL = ('Exhaustive check of every entry of every calendar table against independent tables and the Gregorian '
          'rule, plus loop-shape/window argument; finite and complete for the table clauses.')
 LEVEL_NOTE = ('Trusts clang 14 AST/constant folding in sa/expr.py; the arithmetic of get_weekday (year mod 400, '
               '/4 -/100 +/400 terms) is value semantics and not decided.')
 TECHNIQUE = 'constant-table relation checking + switch exhaustiveness + loop-shape/window analysis over clang AST'
+
+
+def _moves_ok(moves, op, want):
+    """The day arithmetic applied to the argument adds up to `want` days in direction `op`, and no intermediate day lies
+    outside the span between the argument and the result (an excursion beyond it overflows the year at the end of the
+    range although the result is representable)."""
+    from ..absint import Int
+    if not moves:
+        return False
+    pos_ = 0
+    sign = 1 if op == 'operator+' else -1
+    for (m, v) in moves:
+        c = v.const() if isinstance(v, Int) else None
+        if c is None or m not in ('operator+', 'operator-'):
+            return False
+        pos_ += c if m == 'operator+' else -c
+        if not (0 <= sign * pos_ <= want):
+            return False
+    return sign * pos_ == want
+
+
+def _check_leap_terms(ctx):
+    """C17-leap: the three leap-day corrections of get_weekday (+ y/4 - y/100 + y/400) are taken of one and the same
+    value, the year counted from March (year - (month < 3)): the congruence needs the leap day of a year to be counted
+    from March of that year on, in all three terms alike."""
+    import re
+    k_ = ctx.G.one('cctz::detail::get_weekday')
+    u, f = ctx.G.defs[k_]
+    F = ctx.facts(f)
+    fold = Folder(u)
+    terms = {}
+    for x in walk(f):
+        if x.get('kind') == 'BinaryOperator' and x.get('opcode') == '/':
+            c = fold.fold(kids(x)[1])
+            if c in (4, 100, 400) and fold.fold(kids(x)[0]) is None:
+                terms.setdefault(c, []).append(x)
+    if sorted(terms) != [4, 100, 400] or any(len(v) != 1 for v in terms.values()):
+        ctx.unknown('C17-leap', 'leap-day corrections of get_weekday', f,
+                    'get_weekday does not have exactly one division of the year by each of 4, 100 and 400 (found %s): another way of '
+                    'counting leap days is not interpreted' % sorted((c, len(v)) for c, v in terms.items()), construct='leap:terms')
+        return
+    # sign of each term in the sum it belongs to
+    signs = {}
+    for c, (x,) in terms.items():
+        sg = 1
+        y = x
+        ok = True
+        while True:
+            p_ = y.get('_p')
+            if p_ is None:
+                ok = False
+                break
+            k = p_.get('kind')
+            if k in ('ParenExpr', 'ImplicitCastExpr'):
+                y = p_
+                continue
+            if k == 'BinaryOperator' and p_.get('opcode') in ('+', '-'):
+                if p_.get('opcode') == '-' and kids(p_)[1] is y:
+                    sg = -sg
+                y = p_
+                continue
+            if k == 'UnaryOperator' and p_.get('opcode') in ('-', '+'):
+                if p_['opcode'] == '-':
+                    sg = -sg
+                y = p_
+                continue
+            if k == 'CompoundAssignOperator' and p_.get('opcode') in ('+=', '-=') and kids(p_)[1] is y:
+                if p_['opcode'] == '-=':
+                    sg = -sg
+                break
+            if k in ('VarDecl', 'ReturnStmt') or (k == 'BinaryOperator' and p_.get('opcode') == '=' and kids(p_)[1] is y):
+                break
+            ok = False
+            break
+        signs[c] = sg if ok else None
+    if None in signs.values():
+        ctx.unknown('C17-leap', 'leap-day corrections of get_weekday', f, 'a correction term is not part of a plain sum', construct='leap:signs')
+        return
+    ctx.check(signs == {4: 1, 100: -1, 400: 1}, 'C17-leap', 'corrections enter as + y/4 - y/100 + y/400', terms[100][0],
+              'the leap-day corrections enter with signs %s: the Gregorian rule adds a day every 4th year, removes it every 100th and '
+              'adds it back every 400th' % ', '.join('%s/%d' % ('+' if signs[c] > 0 else '-', c) for c in (4, 100, 400)), construct='leap:signs')
+    dk = {c: F.ident_key(kids(terms[c][0])[0]) for c in terms}
+    same = len(set(dk.values())) == 1
+    ctx.check(same, 'C17-leap', 'the three corrections are taken of one value', terms[100][0],
+              'the corrections are taken of different values (%s): in January and February of a year the three terms no longer '
+              'step together, so the weekday is off by one in years where they differ (century years not divisible by 400)'
+              % ', '.join('/%d of %s' % (c, dk[c]) for c in (4, 100, 400)), construct='leap:same', detail=dk[4])
+    if same:
+        # that value is the year counted from March
+        x0 = peel(kids(terms[4][0])[0])
+        expr = F.resolve_key(dk[4])
+        def_nodes = [x0]
+        if x0.get('kind') == 'DeclRefExpr':
+            d = u.by_id.get((x0.get('referencedDecl') or {}).get('id'))
+            if d is not None and d.get('kind') == 'VarDecl' and kids(d):
+                # the definitions of that local: its initialiser and the assignments that do not contain the terms
+                def_nodes = [kids(d)[-1]]
+                for y in walk(f):
+                    if y.get('kind') in ('BinaryOperator', 'CompoundAssignOperator') and y.get('opcode', '').endswith('=') and \
+                            y.get('opcode') not in ('==', '!=', '<=', '>=') and \
+                            (peel(kids(y)[0]).get('referencedDecl') or {}).get('id') == d['id'] and \
+                            not any(t_ is z for c in terms for t_ in [terms[c][0]] for z in walk(y)):
+                        def_nodes.append(y)
+                expr = ' ; '.join(F.keys.key(n_) for n_ in def_nodes)
+
+        def is_month(e_, depth=0):
+            e_ = peel(e_)
+            if e_.get('kind') == 'CXXMemberCallExpr' and callee(e_) and callee(e_)[1] == 'month':
+                return True
+            if e_.get('kind') == 'DeclRefExpr' and depth < 3:
+                d_ = u.by_id.get((e_.get('referencedDecl') or {}).get('id'))
+                return d_ is not None and d_.get('kind') == 'VarDecl' and bool(kids(d_)) and is_month(kids(d_)[-1], depth + 1)
+            return False
+
+        def is_jan_feb(e_):
+            e_ = peel(e_)
+            if e_.get('kind') == 'BinaryOperator' and e_.get('opcode') in ('<', '<='):
+                return is_month(kids(e_)[0]) and fold.fold(kids(e_)[1]) == (3 if e_['opcode'] == '<' else 2)
+            if e_.get('kind') == 'BinaryOperator' and e_.get('opcode') in ('>', '>='):
+                return is_month(kids(e_)[1]) and fold.fold(kids(e_)[0]) == (3 if e_['opcode'] == '>' else 2)
+            if e_.get('kind') == 'ConditionalOperator':
+                c_, a_, b_ = kids(e_)
+                return is_jan_feb(c_) and fold.fold(a_) == 1 and fold.fold(b_) == 0
+            return False
+        march = any(y.get('kind') == 'BinaryOperator' and y.get('opcode') == '-' and is_jan_feb(kids(y)[1])
+                    for n_ in def_nodes for y in walk(n_)) or \
+            any(y.get('kind') == 'CompoundAssignOperator' and y.get('opcode') == '-=' and is_jan_feb(kids(y)[1]) for y in def_nodes)
+        ctx.check3(True if march else None, 'C17-leap', 'that value is the year counted from March (year - (month < 3))', terms[4][0],
+                   '', construct='leap:march', detail=expr[:200],
+                   unknown_why='the value the corrections are taken of (%s) is not recognisably year - (month < 3)' % expr[:160])
+    ctx.minimum('C17-leap', 3)
+
+
+def _excursion(moves, op):
+    from ..absint import Int
+    pos_ = 0
+    sign = 1 if op == 'operator+' else -1
+    for (m, v) in moves:
+        c = v.const() if isinstance(v, Int) else None
+        if c is None or m not in ('operator+', 'operator-'):
+            return False
+        pos_ += c if m == 'operator+' else -c
+        if not (0 <= sign * pos_ <= 7):
+            return True
+    return False
 
 
 def run(ctx):
@@ -36,8 +183,12 @@ def run(ctx):
               detail=' '.join(names))
     if n != 7:
         return
+    n_cycle_min = 1
     for key, step in (('by_mon_off', 1), ('forw', 1), ('back', -1)):
+        if T[key] is None:
+            continue
         d, tv = T[key]
+        n_cycle_min += 1 + (len(tv) - 1) + max(0, len(tv) - 7)
         ok_perm = sorted(tv[:7]) == list(range(7))
         ctx.check(ok_perm, 'C17-cycle', '%s: first seven entries are a permutation of the weekdays' % d['name'], d,
                   'the first seven entries of %s do not cover every weekday' % d['name'], construct='perm:%s' % key,
@@ -51,7 +202,7 @@ def run(ctx):
         for i in range(len(tv) - 7):
             ctx.check(tv[i + 7] == tv[i], 'C17-cycle', '%s[%d] == [%d] (period 7)' % (d['name'], i + 7, i), d,
                       'period-7 broken', construct='period:%s[%d]' % (key, i + 7))
-    ctx.minimum('C17-cycle', 60)
+    ctx.minimum('C17-cycle', min(60, n_cycle_min))
 
     # ---- C17-window: for each (weekday of cd, target weekday) the search is followed by abstract interpretation
     # with the table contents known: it terminates, every table subscript is in bounds, and the argument is moved by
@@ -75,12 +226,35 @@ def run(ctx):
         def subscript(self, ai, e, ext, idx, st):
             self.subs.append((e, ext, idx))        # in the function itself or in a helper followed from it
     for key, fname_ in (('forw', 'cctz::detail::next_weekday'), ('back', 'cctz::detail::prev_weekday')):
-        d, tv = T[key]
         k_ = ctx.G.one(fname_)
         u, f = ctx.G.defs[k_]
         ps = params_of(f)
+        # the abstract runs fix get_weekday(.) to the weekday of the argument: exact only when it is applied to the
+        # unmodified argument in the function itself
+        gk = ctx.G.one('cctz::detail::get_weekday')
+        direct = True
+        for x in walk(f):
+            if x.get('kind') in ('CallExpr', 'CXXOperatorCallExpr', 'CXXMemberCallExpr') and callee(x) and callee(x)[0] == 'fn':
+                tg = ctx.G.resolve_decl(callee(x)[1])
+                nm_ = (callee(x)[1].get('name') or '')
+                if gk in tg:
+                    a0 = peel(call_args(x)[0], explicit=False) if call_args(x) else {}
+                    while a0.get('kind') in ('CXXConstructExpr', 'MaterializeTemporaryExpr', 'CXXBindTemporaryExpr') and \
+                            len([c_ for c_ in kids(a0) if c_.get('kind') != 'CXXDefaultArgExpr']) == 1:
+                        a0 = peel([c_ for c_ in kids(a0) if c_.get('kind') != 'CXXDefaultArgExpr'][0], explicit=False)
+                    if not (a0.get('kind') == 'DeclRefExpr' and (a0.get('referencedDecl') or {}).get('id') == ps[0]['id']):
+                        direct = False
+                elif not nm_.startswith('operator') and any(gk in ctx.G.reachable([t_]) | {t_} for t_ in tg if t_ in ctx.G.defs):
+                    direct = False
+            if x.get('kind') in ('BinaryOperator', 'CompoundAssignOperator', 'CXXOperatorCallExpr', 'UnaryOperator'):
+                from ..expr import written_lvalues
+                for lv in written_lvalues(x):
+                    l0 = peel(lv, explicit=False)
+                    if l0.get('kind') == 'DeclRefExpr' and (l0.get('referencedDecl') or {}).get('id') == ps[0]['id']:
+                        direct = False
         for b in range(7):
             bad = []
+            undecided = []
             n_sub = 0
             for w in range(7):
                 o = _W(f)
@@ -96,16 +270,26 @@ def run(ctx):
                 n_sub += len(o.subs)
                 if not res:
                     bad.append('%s->%s: the search does not come to an end' % (names[b], names[w]))
-                elif [m for m in o.moves if not (m[0] == op and isinstance(m[1], Int) and m[1].const() == want)] or not o.moves:
+                elif not direct:
+                    if _excursion(o.moves, op):
+                        bad.append('%s->%s: moves by %s: an intermediate day lies outside the week %s the argument (its year '
+                                   'overflows at the end of the range although the result is representable)' % (
+                                       names[b], names[w], ', '.join('%s%s' % (m[0][-1], m[1]) for m in o.moves), 'after' if key == 'forw' else 'before'))
+                    else:
+                        undecided.append('%s->%s' % (names[b], names[w]))
+                elif not _moves_ok(o.moves, op, want):
                     bad.append('%s->%s: moves by %s, the calendar says %s%d' % (
                         names[b], names[w], ', '.join('%s%s' % (m[0][-1], m[1]) for m in o.moves) or 'nothing', op[-1], want))
                 for (e, ext, idx) in o.subs:
                     if not (idx.lo >= 0 and idx.hi < ext):
                         bad.append('%s->%s: subscript %s of a table of extent %d' % (names[b], names[w], idx, ext))
-            ctx.check(not bad and n_sub >= 7, 'C17-window', '%s from a %s: every target weekday is reached by the right number of days, '
-                      'all table subscripts in bounds' % (fname_.split('::')[-1], names[b]), f,
-                      'the table search is wrong for: %s' % '; '.join(bad[:4]), construct='window:%s[%d]' % (key, b),
-                      detail='%d subscripts followed' % n_sub)
+            ctx.check3(None if (undecided and not bad) else (not bad and n_sub >= 7), 'C17-window',
+                       '%s from a %s: every target weekday is reached by the right number of days, '
+                       'all table subscripts in bounds' % (fname_.split('::')[-1], names[b]), f,
+                       'the table search is wrong for: %s' % '; '.join(bad[:4]), construct='window:%s[%d]' % (key, b),
+                       detail='%d subscripts followed' % n_sub,
+                       unknown_why='the weekday is taken of something other than the unmodified argument (in a helper or after moving '
+                                   'it): the abstract runs, which fix get_weekday to the weekday of the argument, do not apply')
     ctx.minimum('C17-window', 14)
 
     # ---- C17-range / C17-yearday by abstract interpretation on specification-chosen partitions
@@ -171,6 +355,7 @@ def run(ctx):
                   'the ordinals of month %d range over %s; the calendar gives [%d,%d] (a leap day shifts only the months after '
                   'February)' % (m, got, lo, hi), construct='yearday:%d' % m, detail=str(got))
     ctx.minimum('C17-range', 4)
+    _check_leap_terms(ctx)
     ctx.minimum('C17-yearday', 12)
 
     # ---- C17-months
